@@ -181,9 +181,45 @@ def c08_suites(ctx, wrappers=True):
                 fc.append([op, L, R, False])
         suites.append({"kind": "bin_explicit", "name": "bin/form-" + form, "cases": fc, "form": form,
                        "patterns": {"form:" + form: len(fc)}, "pools": {}})
+    # both operands as views of ONE buffer with the same start address (contiguous / stride 2), or the same object twice
+    sc = []
+    for _ in range(80 if quick else 400):
+        n = rng.randint(1, 24)
+        kind, pool = make_pool(rng, 3 * n + 8)
+        c = pick(rng, pool, n)
+        above = [v for v in pool if v > c[-1]]
+        how = rng.choice(["same-length", "same-length", "shorter", "longer", "same-object"])
+        if how == "same-object":
+            sv = list(c)
+        else:
+            sv = c[0::2]
+            want = {"same-length": len(c), "shorter": len(sv), "longer": len(c) + rng.randint(1, 4)}[how]
+            sv = sv + sorted(rng.sample(above, min(len(above), max(0, want - len(sv)))))
+        L, R = (c, sv) if rng.random() < 0.5 else (sv, c)
+        for op in ops:
+            sc.append([op, L, R, False])
+    suites.append({"kind": "bin_explicit", "name": "bin/form-sharedbuf", "cases": sc, "form": "sharedbuf",
+                   "patterns": {"form:sharedbuf": len(sc)}, "pools": {}})
     lop = gen_lopsided(rng, quick)
     suites.append({"kind": "bin_explicit", "name": "bin/lopsided", "cases": [[op, L, R, False] for L, R in lop for op in ops],
                    "patterns": {"long-vs-short": len(lop)}, "pools": {}})
+    # BOTH operands long (a threshold on min(len), seeded c09h: above 4096 the output buffer was capped at the overlap
+    # width hi - lo + 1 computed in uint32, which wraps to 0 when both operands span 0 .. 2^32-1)
+    lb = []
+    for ends in (["full-full", "full-full", "full-inner"] if quick else ["full-full"] * 4 + ["full-inner", "inner-full", "inner-inner", "low-high"]):
+        n1 = rng.choice([4097, 4098, 4100, 4500, 5000]) if ends == "full-full" else rng.choice([4096, 4097, 4300])
+        n2 = rng.choice([4097, 4099, 4200, 4800])
+        base_pool = sorted(set(rng.randrange(1, M32 - 1) for _ in range(3000)) | set(range(5, 2500)) | set(range(M32 - 2600, M32 - 3)))
+        a, b = pick(rng, base_pool, n1 - 2), pick(rng, base_pool, n2 - 2)
+        fa, fb = {"full-full": (True, True), "full-inner": (True, False), "inner-full": (False, True), "inner-inner": (False, False),
+                  "low-high": (False, False)}[ends]
+        a = ([0] + a + [M32 - 1]) if fa else a
+        b = ([0] + b + [M32 - 1]) if fb else b
+        if ends == "low-high":
+            a, b = [v for v in a if v < 2 ** 31][:4200] + [2 ** 31], [2 ** 31] + [v for v in b if v > 2 ** 31][:4200]
+        lb.append((a, b))
+    suites.append({"kind": "bin_explicit", "name": "bin/long-both", "cases": [[op, L, R, False] for L, R in lb for op in ops],
+                   "patterns": {"both-operands-above-4096": len(lb)}, "pools": {}})
     suites.append({"kind": "many_rows", "name": "many/small", "U": list(range(4)), "maxk": 3})
     suites.append({"kind": "many_rows", "name": "many/boundary", "U": B, "maxk": 3})
     many = [gen_many(rng) for _ in range(300 if quick else 1000)]
@@ -868,7 +904,13 @@ def replay(ctx, path):
             l = None if c["l"] is None else tuple(c["l"])
             rr = None if c["r"] is None else tuple(c["r"])
             copy = bool(c.get("copy_flags"))
-            ent = run1.call_bin(op, run1.arr(None if l is None else list(l)), run1.arr(None if rr is None else list(rr)), copy)
+            la, ra = run1.arr(None if l is None else list(l)), run1.arr(None if rr is None else list(rr))
+            form = (c.get("suite") or "").partition("bin/form-")[2]
+            if form == "sharedbuf":
+                la, ra = run1.shared(l, rr)
+            elif form:
+                la, ra = run1.reform(la, form), run1.reform(ra, form)
+            ent = run1.call_bin(op, la, ra, copy)
             sig = judge_bin(op, l, rr, ent)
             print("%s(%s, %s%s) = %s, expected %s%s" % (c["op"], jsonable(l), jsonable(rr), ", copy flags" if copy else "", jsonable(ent),
                                                       jsonable(oracle_bin(op, l, rr)), "  <-- WRONG" if sig else ""))
